@@ -206,3 +206,16 @@ PROPS["C18"] = dict(
          "distinct = distinct (node count, link multiset, valve subset); non-trivial = all of them (each is a different partition problem)",
     technique="bounded stand-in only: exhaustive small-scope run-time contract on the real functions (contract-based deductive verification not applicable: see DESIGN.md)",
 )
+
+PROPS["C13"] = dict(
+    level="proof",
+    explanation="from_dict is executed symbolically from the real source, one element dictionary at a time (junction, tank, reservoir, pipe, head pump, power "
+                "pump, six valve types), on a contract stub of the model: the keys are exactly those the real reflective to_dict writes for that class "
+                "(computed by running it on a real instance), the numeric values and the tag are symbolic; obligation per (class, key): the value reaches "
+                "the constructor parameter or attribute it is read back from. Bounded: to_dict(from_dict(to_dict(wn))), read_json(write_json(wn)) and "
+                "appending to an empty model on the enumerated feature models and example networks, compared after JSON normalisation.",
+    trusted_base=["WaterNetworkModel.add_* store each parameter in the attribute of the same meaning (C14)", "json / pickle libraries"],
+    not_decided=["options, patterns, curves, sources, controls/rules: bounded round trip only (controls go through the INP control/rule text parser, see C12)"],
+    assumptions=[],
+    rule="bounded: enumerated models x {dict, json, append}; distinct = distinct (model, mode) pairs",
+)
